@@ -3,8 +3,9 @@ import z3
 from symx import core, world
 world.install()
 from symx.core import SymZ, SymBool
-from symx.sbytes import SymBytes, SEQ
-from symx.blsmodel import World, MP, GT, F, I, B, R_ORDER
+from symx.sbytes import SEQ, LEN
+from symx.sbytes import AbsBytes as SymBytes     # protocol obligations use abstract byte strings (LEN/CAT/equality)
+from symx.blsmodel import World, MP, GT, F, I, B, R_ORDER, Poly
 from symx.harness import obligation
 from .common import mod, require, control
 
@@ -491,3 +492,202 @@ def c09_outputs(rep, tier):
         require(rep, g, "PopProve(sk) = compress(sk * hash_to_curve(PK, POP tag))", pth.decisions, rp)
     core.explore(run_pop, on_path=on_pop)
     rep.note("byte-level conformance = this obligation + C11 (ZCash format) + C10/C15 (RFC 9380) + C07 (generator constants); published vectors are replay oracles")
+
+
+# ---------------------------------------------------------------------------
+# C03
+
+def _sum_poly(ps):
+    from symx.blsmodel import Poly
+    t = Poly()
+    for p_ in ps:
+        t = t + p_
+    return t
+
+
+@obligation("C03", "aggregate_is_group_sum", timeout=900, bound="lists of 1..3 (quick) / 1..5 (thorough) arbitrary 96-byte strings (symbolic content), every permutation; empty list and wrongly sized entries")
+def c03_aggregate(rep, tier):
+    import itertools
+    cs = cs_mod()
+    rp = {"kind": "bls_aggregate", "args": {}}
+    rep.stub("ideal model (symx.blsmodel)")
+    nmax = 3 if tier == "quick" else 5
+    for suite in SUITES:
+        S = getattr(cs, suite)
+        rep.encoded(S.Aggregate)
+        for n in range(1, nmax + 1):
+            def run(ctx, n=n, S=S):
+                W = World()
+                sigs = [SymBytes.var("s%d" % i, length=96) for i in range(n)]
+                with world.patched(cs, **W.bindings()):
+                    try:
+                        agg = S.Aggregate(sigs)
+                    except (ValueError, VE()) as e:
+                        return W, sigs, ("raised", type(e).__name__)
+                    perm = list(reversed(sigs)) if n > 1 else sigs
+                    agg2 = S.Aggregate(perm)
+                    rot = sigs[1:] + sigs[:1]
+                    agg3 = S.Aggregate(rot)
+                return W, sigs, ("ok", agg, agg2, agg3)
+
+            def on_path(pth, n=n, suite=suite):
+                rep.paths += 1
+                if pth.kind != "ret":
+                    rep.fail("%s.Aggregate raised %r" % (suite, pth.value), rp)
+                    return
+                W, sigs, out = pth.value
+                dec = [d for d in W.decodes if d[0] == "g2"]
+                valid = W.codec(2)[3]
+                if out[0] == "raised":
+                    g, mdl = pth.ctx.prove(z3.Not(z3.And(*[valid(s.t) for s in sigs])))
+                    require(rep, g, "%s.Aggregate raises only if some entry is not a canonical encoding" % suite, pth.decisions, rp)
+                    return
+                _, agg, agg2, agg3 = out
+                first = [d[2] for d in dec[:n]]
+                enc = [e for e in W.encodes if e[0] == 2][0]
+                g, mdl = pth.ctx.prove(z3.And(enc[1].k == _sum_poly([p_.kp for p_ in first]).z3(), enc[1].t == _sum_poly([p_.tp for p_ in first]).z3(),
+                                              agg.t == enc[2], LEN(agg.t) == 96))
+                require(rep, g, "%s.Aggregate(n=%d) = canonical encoding of the group sum of the decoded signatures" % (suite, n), pth.decisions, rp)
+                encs = [e for e in W.encodes if e[0] == 2]
+                same_args = z3.And(*[z3.And(e[1].t == enc[1].t, (e[1].k - enc[1].k) % r == 0) for e in encs[1:3]])
+                g, mdl = pth.ctx.prove(same_args, timeout_ms=60000)
+                require(rep, g and len(encs) == 3 and agg2.t.eq(encs[1][2]) and agg3.t.eq(encs[2][2]),
+                        "%s.Aggregate(n=%d) is independent of the order of the list (same group element is encoded; the encoding is canonical)" % (suite, n),
+                        pth.decisions, rp)
+            core.explore(run, on_path=on_path, ctx_kwargs=dict(branch_timeout_ms=30000))
+        # empty list / wrong sizes
+        try:
+            S.Aggregate([])
+            rep.fail("%s.Aggregate([]) did not raise" % suite, rp)
+        except VE():
+            rep.ok("%s.Aggregate([]) raises ValidationError" % suite, nontrivial=False)
+
+        def run_len(ctx, S=S):
+            W = World()
+            s0 = SymBytes.var("s0", length=96)
+            s1 = SymBytes.var("s1", 0, 200)
+            with world.patched(cs, **W.bindings()):
+                try:
+                    S.Aggregate([s0, s1])
+                except VE():
+                    return s1, "refused"
+                except ValueError:
+                    return s1, "valueerror"
+            return s1, "ok"
+
+        def on_len(pth, suite=suite):
+            rep.paths += 1
+            if pth.kind != "ret":
+                rep.fail("%s.Aggregate with an odd-sized entry raised %r" % (suite, pth.value), rp)
+                return
+            s1, out = pth.value
+            L = SymZ.lift(s1.length)
+            if out == "refused":
+                rep.ok("%s.Aggregate refuses on this path" % suite, path=pth.decisions, nontrivial=False)
+            else:
+                g, mdl = pth.ctx.prove(L.t == 96)
+                require(rep, g, "%s.Aggregate gets past input validation only with 96-byte entries" % suite, pth.decisions, rp)
+        core.explore(run_len, on_path=on_len)
+
+
+def _agg_verify(rep, suite, n, fast=False):
+    cs = cs_mod()
+    S = getattr(cs, suite)
+    tag = "%s.%s(n=%d)" % (suite, "FastAggregateVerify" if fast else "AggregateVerify", n)
+    rp = {"kind": "bls_aggverify", "args": {"suite": suite, "n": n, "fast": fast}}
+    seen = {True: 0, False: 0}
+
+    def run(ctx):
+        W = World()
+        sig = SymBytes.var("sig", length=96)
+        with world.patched(cs, **W.bindings()):
+            sks, pks = [], []
+            for i in range(n):
+                sk, pk = honest_key(S, W, "sk%d" % i)
+                sks.append(sk)
+                pks.append(pk)
+            if fast:
+                m = SymBytes.var("m", 0, 4)
+                msgs = [m] * n
+                H = [W.hash_to_G2(m, S.DST, S.xmd_hash_function)] * n
+                res = S.FastAggregateVerify(pks, m, sig)
+            else:
+                msgs = [SymBytes.var("m%d" % i, 0, 4) for i in range(n)]
+                eff = [(pks[i] + msgs[i]) if suite == "G2MessageAugmentation" else msgs[i] for i in range(n)]
+                H = [W.hash_to_G2(eff[i], S.DST, S.xmd_hash_function) for i in range(n)]
+                res = S.AggregateVerify(pks, msgs, sig)
+            okb = bool(res)
+            expected = W.G2_to_signature(MP("G2", _sum_poly([H[i].kp * sks[i].t for i in range(n)]), 0))
+        return W, sks, msgs, sig, okb, expected
+
+    def on_path(pth):
+        rep.paths += 1
+        if pth.kind != "ret":
+            rep.fail("%s raised %r" % (tag, pth.value), rp)
+            return
+        W, sks, msgs, sig, okb, expected = pth.value
+        seen[okb] += 1
+        distinct = z3.And(*[msgs[i].t != msgs[j].t for i in range(n) for j in range(i + 1, n)]) if (suite == "G2Basic" and not fast and n > 1) else z3.BoolVal(True)
+        if okb:
+            g, mdl = pth.ctx.prove(z3.And(sig.t == expected.t, distinct), timeout_ms=120000)
+            require(rep, g, "%s True => signature is the canonical sum of the signers' own signatures and the suite preconditions hold" % tag, pth.decisions, rp)
+            monitor_pairings(rep, pth, W, tag, rp)
+        else:
+            degenerate = z3.BoolVal(False)
+            if fast:
+                # IETF draft: FastAggregateVerify is CoreVerify under the AGGREGATE key, which must itself pass KeyValidate
+                degenerate = (_sum_poly([Poly.lift(s_.t) for s_ in sks]).z3() % r) == 0
+            g, mdl = pth.ctx.prove(z3.Or(sig.t != expected.t, z3.Not(distinct), degenerate), timeout_ms=120000)
+            require(rep, g, "%s False => the signature is not that sum, or a precondition fails" % tag, pth.decisions, rp)
+    core.explore(run, on_path=on_path, ctx_kwargs=dict(branch_timeout_ms=60000))
+    require(rep, seen[True] > 0 and seen[False] > 0, "%s: accepting and rejecting paths reachable" % tag, None, rp)
+
+
+for _s in SUITES:
+    def _mk3(s):
+        def f(rep, tier):
+            cs = cs_mod()
+            rep.encoded(getattr(cs, s).AggregateVerify, cs.BaseG2Ciphersuite._CoreAggregateVerify)
+            rep.stub("ideal model (symx.blsmodel)")
+            for n in ((1, 2) if tier == "quick" else (1, 2, 3)):
+                _agg_verify(rep, s, n)
+        return f
+    obligation("C03", "aggregate_verify_%s" % _s, timeout=1500,
+               bound="1..2 (quick) / 1..3 (thorough) signers with arbitrary valid keys sk_i in [1, r-1] (repeats allowed), arbitrary messages, EVERY 96-byte candidate aggregate")(_mk3(_s))
+
+
+@obligation("C03", "fast_aggregate_verify", timeout=1500, bound="1..2 (quick) / 1..3 (thorough) signers, one shared message, every 96-byte candidate")
+def c03_fast(rep, tier):
+    cs = cs_mod()
+    rep.encoded(cs.G2ProofOfPossession.FastAggregateVerify, cs.G2ProofOfPossession._AggregatePKs)
+    rep.stub("ideal model (symx.blsmodel)")
+    for n in ((1, 2) if tier == "quick" else (1, 2, 3)):
+        _agg_verify(rep, "G2ProofOfPossession", n, fast=True)
+
+
+@obligation("C03", "aggregate_verify_preconditions", timeout=600, bound="empty inputs, length mismatch (concrete list shapes, symbolic contents)")
+def c03_preconditions(rep, tier):
+    cs = cs_mod()
+    rp = {"kind": "bls_aggverify", "args": {"suite": "all", "n": 0, "fast": False}}
+    for suite in SUITES:
+        S = getattr(cs, suite)
+
+        def run(ctx, S=S):
+            W = World()
+            sig = SymBytes.var("sig", length=96)
+            with world.patched(cs, **W.bindings()):
+                sk, pk = honest_key(S, W)
+                m = SymBytes.var("m", 0, 4)
+                outs = [bool(S.AggregateVerify([], [], sig)), bool(S.AggregateVerify([pk], [], sig)), bool(S.AggregateVerify([pk], [m, m], sig)),
+                        bool(S.AggregateVerify([pk, pk], [m], sig))]
+                if hasattr(S, "FastAggregateVerify"):
+                    outs.append(bool(S.FastAggregateVerify([], m, sig)))
+            return outs
+
+        def on_path(pth, suite=suite):
+            rep.paths += 1
+            if pth.kind != "ret":
+                rep.fail("%s aggregate verification raised %r on empty / mismatched lists" % (suite, pth.value), rp)
+                return
+            require(rep, not any(pth.value), "%s: empty signer set and key/message count mismatch are rejected (False, no exception)" % suite, pth.decisions, rp)
+        core.explore(run, on_path=on_path)
